@@ -427,3 +427,12 @@ func (c *Ctx) mergeStates(es []edgeState) *State {
 	}
 	return res
 }
+
+// obligeCase records "pc && hyp ==> cond" without assuming it afterwards
+// (the cases of a split are independent).
+func (c *Ctx) obligeCase(st *State, kind, text string, hyp, cond *Term) {
+	n := len(c.assumes)
+	sub := &State{pc: And(st.pc, hyp)}
+	c.oblige(sub, kind, text, 0, cond)
+	c.assumes = c.assumes[:n]
+}
